@@ -14,6 +14,7 @@ package types
 // events.go — the tx_receipt event is a pure rendering of the receipt object it is given (C13); it fails only when the
 // receipt cannot be marshalled, and never touches state.
 //@ func GetSdkEventForReceipt(receipt *ethtypes.Receipt, effectiveGasPrice *big.Int, vmErr error, cometTxHash *cmtbytes.HexBytes) (ev sdk.Event, err error)
+//@   deterministic[C01.no_node_local_source]
 //@   requires receipt != nil && effectiveGasPrice != nil && receipt.BlockNumber != nil
 //@   requires forall i int :: (0 <= i && i < len(receipt.Logs)) ==> receipt.Logs[i] != nil
 //@   modifies nothing
@@ -47,6 +48,7 @@ package types
 // utils.go — BinSearch: bisection between lo (known or assumed to fail) and hi; the result stays in (lo, hi]; whatever
 // happens to the state is what the calls of `executable` do.
 //@ func BinSearch(lo, hi uint64, executable func(uint64) (bool, *MsgEthereumTxResponse, error)) (res uint64, err error)
+//@   deterministic[C01.no_node_local_source]
 //@   requires hi < pow2(63) && lo < pow2(63)
 //@   modifies effects(executable)
 //@   ensures[C08.estimate_in_range] err == nil ==> (res <= hi && (lo < hi ==> lo < res) && (lo >= hi ==> res == hi))
@@ -54,3 +56,19 @@ package types
 //@   panics any
 //@ loop 1
 //@   invariant old(lo) <= lo && hi <= old(hi) && (old(lo) < old(hi) ==> lo < hi) && (old(lo) >= old(hi) ==> (lo == old(lo) && hi == old(hi)))
+
+// key.go — every key prefix is a one-byte slice with capacity 1 (package initialisers `[]byte{prefix}`), so `append(prefix, ...)`
+// always allocates and never writes into the shared backing array. Trusted (initialiser bodies are not verified).
+//@ axiom evm_key_prefixes: len(KeyPrefixBlockHash) == 1 && cap(KeyPrefixBlockHash) == 1 && len(KeyPrefixTransientTxReceipt) == 1 && cap(KeyPrefixTransientTxReceipt) == 1 && len(KeyPrefixTransientTxGas) == 1 && cap(KeyPrefixTransientTxGas) == 1 && len(KeyPrefixTransientTxLogCount) == 1 && cap(KeyPrefixTransientTxLogCount) == 1
+
+//@ ghost func trReceiptKeyB(i int) bytes
+//@ func TxReceiptTransientKey(txIdx uint64) []byte
+//@   assumed
+//@   modifies nothing
+//@   ensures len(result) == 9 && bytes(result) == trReceiptKeyB(txIdx) && fresh(base(result))
+//@   panics never
+//@ func BlockHashKey(height uint64) []byte
+//@   deterministic[C01.no_node_local_source]
+//@   modifies nothing
+//@   ensures[C20.block_hash_key] len(result) == 9
+//@   panics[C20.block_hash_key_never_panics] never
